@@ -1,7 +1,7 @@
 (* Json.v — models of pypika.terms.JSON (get_sql / _recursive_get_sql / _get_dict_sql / _get_list_sql /
    _get_str_sql) and of Tuple / Array / Bracket get_sql, with their specification-side readers.
    Definitions only. *)
-From PV Require Import Base Interval.
+From PV Require Import Base gen.C20Table Interval.
 
 (* ============================== JSON ============================== *)
 (* a Python value handed to JSON(...): str / int / float (its repr text) / bool / None / list / dict
@@ -33,6 +33,29 @@ Fixpoint json_text (v : jvalue) : string :=
 
 (* JSON.get_sql(secondary_quote_char): format_quotes(text, secondary_quote_char), alias None *)
 Definition json_sql (sq : option string) (v : jvalue) : string := fq sq (json_text v).
+
+(* the keyword context a query builder hands to every term: quote_char, secondary_quote_char,
+   alias_quote_char, dialect.  JSON.get_sql(secondary_quote_char, **kwargs) calls
+   _recursive_get_sql(self.value) WITHOUT the kwargs: only the outer literal quote depends on the
+   context; the identifier quote_char never reaches the JSON text. *)
+Record qctx := mkCtx {
+  cx_quote : option string;
+  cx_secondary : option string;
+  cx_alias_quote : option string;
+  cx_dialect : option dialect }.
+
+Definition json_sql_ctx (c : qctx) (v : jvalue) : string := json_sql (cx_secondary c) v.
+
+Definition dialect_of_name (n : string) : option dialect :=
+  find (fun d => String.eqb (dialect_name d) n)
+       [DVertica; DClickhouse; DOracle; DMssql; DMysql; DPostgresql; DRedshift; DSqlite; DSnowflake].
+
+(* the ten query classes with the constants read from the code on this run (gen/C20Table.v) *)
+Definition class_ctxs : list (string * qctx) :=
+  map (fun e => match e with
+                | (name, (q, sq, aq, dn)) =>
+                    (name, mkCtx q sq aq (match dn with Some n => dialect_of_name n | None => None end))
+                end) query_class_ctx.
 
 (* ---- specification: RFC 8259 text of the value (the layout of json.dumps with compact
         separators and ensure_ascii=False), and a standard SQL string literal around it ---- *)
